@@ -2812,19 +2812,24 @@ sexp sexp_read_polar_tail (sexp ctx, sexp in, sexp magnitude) {
 sexp sexp_read_float_tail (sexp ctx, sexp in, double whole, int negp) {
   int c, c2;
   sexp exponent=SEXP_VOID;
-  long double val=0.0, scale=10, e=0.0;
+  long double val=0.0, e=0.0;
+  /* collect the decimal digits and let strtod round correctly */
+  char digits[1200];
+  int ndigits;
   sexp_gc_var1(res);
   sexp_gc_preserve1(ctx, res);
-  for (c=sexp_read_char(ctx, in); sexp_isdigit(c);
-       c=sexp_read_char(ctx, in), val*=10, scale*=10)
-    val += digit_value(c);
+  ndigits = snprintf(digits, 400, "%.0f", whole);
+  if (ndigits < 0 || ndigits >= 400) ndigits = 0;
+  digits[ndigits++] = '.';
+  for (c=sexp_read_char(ctx, in); sexp_isdigit(c); c=sexp_read_char(ctx, in))
+    if (ndigits < (int)sizeof(digits) - 40) digits[ndigits++] = c;
 #if SEXP_USE_PLACEHOLDER_DIGITS
-  for (; c==SEXP_PLACEHOLDER_DIGIT;
-       c=sexp_read_char(ctx, in), val*=10, scale*=10)
-    val += sexp_placeholder_digit_value(10);
+  for (; c==SEXP_PLACEHOLDER_DIGIT; c=sexp_read_char(ctx, in))
+    if (ndigits < (int)sizeof(digits) - 40)
+      digits[ndigits++] = '0' + sexp_placeholder_digit_value(10);
 #endif
-  val /= scale;
-  val += whole;
+  digits[ndigits] = '\0';
+  val = strtod(digits, NULL);
   if (negp) val *= -1;
   if (is_precision_indicator(c)) {
     c2 = sexp_read_char(ctx, in);
@@ -2842,20 +2847,24 @@ sexp sexp_read_float_tail (sexp ctx, sexp in, double whole, int negp) {
 #endif
     e = (sexp_fixnump(exponent) ? sexp_unbox_fixnum(exponent)
          : sexp_flonump(exponent) ? sexp_flonum_value(exponent) : 0.0);
+    if (e != 0.0) {
+      /* redo the conversion with the exponent so it is rounded only once */
+      snprintf(digits + ndigits, 40, "e%ld", (e > 100000 ? 100000L : e < -100000 ? -100000L : (long)e));
+      val = strtod(digits, NULL);
+      if (negp) val *= -1;
+    }
 #if SEXP_USE_COMPLEX
     if (sexp_complexp(res)) {
       if (sexp_complex_real(res) == SEXP_ZERO) {
-        sexp_complex_imag(res) = sexp_make_flonum(ctx, val * pow(10, e));
+        sexp_complex_imag(res) = sexp_make_flonum(ctx, val);
       } else {
-        sexp_complex_real(res) = sexp_make_flonum(ctx, val * pow(10, e));
+        sexp_complex_real(res) = sexp_make_flonum(ctx, val);
       }
       sexp_gc_release1(ctx);
       return res;
     }
 #endif
   }
-  if (e != 0.0)
-    val = fabsl(e) > 320 ? exp(log(val) + e*M_LN10) : val * pow(10, e);
 #if SEXP_USE_FLONUMS
   res = sexp_make_flonum(ctx, val);
 #else
